@@ -25,9 +25,9 @@ package cors
 //@   transparent
 
 //@ func Middleware.Wrap$1
-//@   props C03 C09 C11 C16 C17 C18
+//@   props C02 C03 C09 C11 C16 C17 C18
 //@   allocs <= 8
-//@   uses glob_singletons
+//@   uses glob_singletons fetch_list_single_token fetch_list_star fetch_hdr_star fetch_hdr_star_auth browser_acrh_nonempty approved_iff_all_listed mem_empty
 //@   frozen E! MP! MV! F!origins_node F!util_Set F!cors_internalConfig F!http_Request
 //@   requires m != nil && r != nil
 //@   requires hdr(w) != r.Header
@@ -54,6 +54,11 @@ package cors
 //@
 //@   ensures C16.fail_uniform: old(m.icfg) != nil && !old(m.debug) && old(IsPreflight(r)) && !old(PreflightOK(old(m.icfg), r, false)) ==> status() == 403 && NoCORSHeaderChanged(w)
 //@   ensures C16.success_values: old(m.icfg) != nil && !old(m.debug) && old(IsPreflight(r)) ==> (Changed(w, "Access-Control-Allow-Methods") ==> get(hdr(w), "Access-Control-Allow-Methods") === headers.WildcardSgl || get(hdr(w), "Access-Control-Allow-Methods") === old(ACRMSglOf(r))) && (Changed(w, "Access-Control-Allow-Headers") ==> get(hdr(w), "Access-Control-Allow-Headers") === headers.WildcardSgl || get(hdr(w), "Access-Control-Allow-Headers") === headers.WildcardAuthSgl || get(hdr(w), "Access-Control-Allow-Headers") === old(ACRHOf(r))) && (Changed(w, "Access-Control-Allow-Private-Network") ==> get(hdr(w), "Access-Control-Allow-Private-Network") === headers.TrueSgl) && (Changed(w, "Access-Control-Allow-Origin") ==> get(hdr(w), "Access-Control-Allow-Origin") === headers.WildcardSgl || get(hdr(w), "Access-Control-Allow-Origin") === old(OriginSglOf(r))) && (Changed(w, "Access-Control-Allow-Credentials") ==> get(hdr(w), "Access-Control-Allow-Credentials") === headers.TrueSgl) && (Changed(w, "Access-Control-Max-Age") ==> get(hdr(w), "Access-Control-Max-Age") === old(m.icfg).acma)
+
+//@   ensures C02.preflight_verdict_include: old(m.icfg) != nil && old(BrowserPreflight(r)) && old(NoCORSPreset(w)) && old(VarySeparate(w, r, old(m.icfg))) && old(AcahInv(old(m.icfg))) ==> (BrowserPreflightPass(w, old(OriginOf(r)), old(ACRMOf(r)), old(HasACRH(r)), old(ACRHOf(r)), old(PNARequested(r)), true) == old(PermitsPreflight(old(m.icfg), r, true)))
+//@   ensures C02.preflight_verdict_omit: old(m.icfg) != nil && old(BrowserPreflight(r)) && old(NoCORSPreset(w)) && old(VarySeparate(w, r, old(m.icfg))) && old(AcahInv(old(m.icfg))) ==> (BrowserPreflightPass(w, old(OriginOf(r)), old(ACRMOf(r)), old(HasACRH(r)), old(ACRHOf(r)), old(PNARequested(r)), false) == old(PermitsPreflight(old(m.icfg), r, false)))
+//@   ensures C02.actual_verdict_include: old(m.icfg) != nil && !old(IsPreflight(r)) && old(HasOrigin(r)) && old(origins.Parse$1(OriginOf(r))) && old(NoCORSPreset(w)) && old(VarySeparate(w, r, old(m.icfg))) ==> (emitted(CORSCheck(w, old(OriginOf(r)), true)) == old(PermitsActual(old(m.icfg), OriginOf(r), true)))
+//@   ensures C02.actual_verdict_omit: old(m.icfg) != nil && !old(IsPreflight(r)) && old(HasOrigin(r)) && old(origins.Parse$1(OriginOf(r))) && old(NoCORSPreset(w)) && old(VarySeparate(w, r, old(m.icfg))) ==> (emitted(CORSCheck(w, old(OriginOf(r)), false)) == old(PermitsActual(old(m.icfg), OriginOf(r), false)))
 
 //@   ensures C09.debug_irrelevant_unless_preflight: old(m.icfg) != nil && !old(IsPreflight(r)) ==> nodep(old(m.debug))
 //@   ensures C09.passthrough_ignores_debug: old(m.icfg) == nil ==> nodep(old(m.debug))
@@ -112,7 +117,7 @@ package cors
 //@   loop 0 decreases len(names) - rangeindex
 
 //@ func internalConfig.validateRequestHeaders
-//@   props C02 C04 C05 C06 C08 C15 C17
+//@   props C04 C05 C06 C08 C15 C17
 //@   frozen E! F!util_Set
 //@   uses mem_empty
 //@   requires icfg != nil && icfg > 0
